@@ -110,6 +110,24 @@ func fqkGet(m meta.Definition, container map[string]interface{}) (interface{}, b
 	return v, found
 }
 
+// a case is in the data if any of its nodes is, including nodes of choices nested in the case
+func jsonCaseHasData(kase *meta.ChoiceCase, container map[string]interface{}) bool {
+	for _, prop := range kase.DataDefinitions() {
+		if nested, isChoice := prop.(*meta.Choice); isChoice {
+			for _, caseId := range nested.CaseIdents() {
+				if jsonCaseHasData(nested.Cases()[caseId], container) {
+					return true
+				}
+			}
+			continue
+		}
+		if _, found := fqkGet(prop, container); found {
+			return true
+		}
+	}
+	return false
+}
+
 func JsonContainerReader(container map[string]interface{}) node.Node {
 	s := &Basic{}
 	var divertedList node.Node
@@ -118,15 +136,15 @@ func JsonContainerReader(container map[string]interface{}) node.Node {
 		// part of the meta, that disqualifies that case and we move onto next case
 		// until one case aligns with data.  If no cases align then input in inconclusive
 		// i.e. non-discriminating and we should error out.
-		for _, kase := range choice.Cases() {
-			for _, prop := range kase.DataDefinitions() {
-				if _, found := fqkGet(prop, container); found {
-					return kase, nil
-				}
-				// just because you didn't find a property doesnt
-				// mean it's invalid, it's only if you don't find any
-				// of the properties of a case
+		for _, caseId := range choice.CaseIdents() {
+			// by iterating thru case ids and not cases we get a predictable order
+			kase := choice.Cases()[caseId]
+			if jsonCaseHasData(kase, container) {
+				return kase, nil
 			}
+			// just because you didn't find a property doesnt
+			// mean it's invalid, it's only if you don't find any
+			// of the properties of a case
 		}
 		// just because you didn't find any properties of any cases doesn't
 		// mean it's invalid, just that *none* of the cases are there.
